@@ -2,6 +2,7 @@ package main
 
 import (
 	"fmt"
+	"os"
 	"reflect"
 	"sort"
 	"strings"
@@ -32,7 +33,16 @@ func init() {
 			if err != nil {
 				return
 			}
+			// a locator is a function of the sequence alone: what it located before
+			// (here: the same sequence, then a different one) has no bearing on what
+			// it locates now, so the answer reported is that of the third use
+			first := fmt.Sprint(loc(seq))
+			_ = loc(gts.New(nil, nil, []byte("acgtacgtacgtacgtacgtacgtacgt")))
 			rr := loc(seq)
+			if fmt.Sprint(rr) != first {
+				res = "ok unstable " + first + " then " + fmt.Sprint(rr)
+				return
+			}
 			parts := make([]string, len(rr))
 			for i, r := range rr {
 				parts[i] = regionSx(r)
@@ -293,6 +303,7 @@ func runC08(o *Out) {
 	}
 	runModifierText(o)
 	runLocators(o)
+	runC08Extract(o)
 }
 
 // every string of up to 6 (thorough 7) symbols over the modifier alphabet through
@@ -497,7 +508,9 @@ func runLocators(o *Out) {
 						ok = false
 					}
 				}()
-				got = loc(seq)
+				_ = loc(seq)
+				_ = loc(gts.New(nil, ff[:3], letters(35)))
+				got = loc(seq) // the third use of the same locator: same answer as the first
 			}()
 			if !ok {
 				o.Violate("panic", line, "")
@@ -615,6 +628,26 @@ func checkMinimize(o *Out, r gts.Region, n int) {
 		return
 	}
 	ss := gts.Minimize(r)
+	// the answer belongs to the caller: minimizing (and inverting) something
+	// else afterwards leaves it as it was
+	{
+		snap := append([]gts.Segment(nil), ss...)
+		invL := gts.InvertLinear(r, n)
+		snapL := regionsSx(invL)
+		invC := gts.InvertCircular(r, n)
+		snapC := regionsSx(invC)
+		other := gts.Regions{gts.Segment{907, 911}, gts.Segment{903, 901}, gts.Segment{905, 909}, gts.Segment{900, 902}}
+		_ = gts.Minimize(other)
+		_ = gts.InvertLinear(other, 1000)
+		_ = gts.InvertCircular(other, 1000)
+		if !reflect.DeepEqual(snap, append([]gts.Segment(nil), ss...)) {
+			o.Violate("minimize-result-overwritten-by-a-later-call", line, segsSx(ss)+" was "+segsSx(snap))
+		}
+		if regionsSx(invL) != snapL || regionsSx(invC) != snapC {
+			o.Violate("invert-result-overwritten-by-a-later-call", line, regionsSx(invL)+" "+regionsSx(invC))
+		}
+		ss = snap
+	}
 	in := covered(flatSegs(r))
 	outc := covered(ss)
 	if !reflect.DeepEqual(in, outc) {
@@ -692,4 +725,82 @@ func checkMinimize(o *Out, r gts.Region, n int) {
 		}
 	}
 	_ = sort.Ints
+}
+
+// gts extract <locators>: for every record of the stream, the regions the
+// locators denote, in order, a region written once however often it is denoted
+// (the same region, segment for segment: two different regions that merely begin,
+// end and add up alike are both written), each as the residues it denotes.
+func runC08Extract(o *Out) {
+	if _, err := os.Stat(gtsBin); err != nil {
+		return
+	}
+	rec := mkRecord(gts.Linear, 60)
+	text := gbText(rec)
+	parsed, ok := parseRecords(text)
+	if !ok || len(parsed) != 1 {
+		o.Violate("generated-record-unreadable", "mkRecord", "")
+		return
+	}
+	plain := stripInfo(parsed[0])
+	stream := append(append([]byte(nil), text...), text...)
+	sb := newSandbox()
+	defer sb.close()
+	comp := map[byte]byte{'a': 't', 'c': 'g', 'g': 'c', 't': 'a'}
+	cases := [][]string{{"tRNA"}, {"tRNA@^+1..$-1"}, {"tRNA@^-1..$+1"}, {"CDS"}, {"CDS@^..^+3"}, {"gene"}, {"mRNA"}, {"regulatory"}, {"regulatory@^+2"},
+		{"misc_feature"}, {"13..20"}, {"13..20@^-2..$+3"}, {"complement(12..18)@$+2"}, {"tRNA", "CDS"}, {"gene", "mRNA", "tRNA"}, {"CDS", "CDS/gene=b"}, {"tRNA", "tRNA"},
+		{"/gene=a"}, {"source"}, {"source", "gene"}, {"7"}, {"7@^-3..$+3"}}
+	for _, locs := range cases {
+		line := "extract " + strings.Join(locs, " ")
+		var rr []gts.Region
+		var seen []string
+		bad := false
+		for _, ls := range locs {
+			one, ok := regionsOf(ls, plain)
+			if !ok {
+				bad = true
+				break
+			}
+			for _, r := range one {
+				k := regionSx(r)
+				dup := false
+				for _, s := range seen {
+					dup = dup || s == k
+				}
+				if !dup {
+					seen = append(seen, k)
+					rr = append(rr, r)
+				}
+			}
+		}
+		if bad {
+			continue
+		}
+		var want []string
+		for _, r := range rr {
+			if !(len(rr) == 1 || len(regionDen(r)) != gts.Len(plain)) {
+				continue
+			}
+			var b []byte
+			for _, d := range regionDen(r) {
+				c := plain.Bytes()[d.p]
+				if d.c {
+					c = comp[c]
+				}
+				b = append(b, c)
+			}
+			want = append(want, string(b))
+		}
+		want = append(want, want...) // two records in the stream
+		res := sb.run(append(append([]string{"extract"}, locs...), "-F", "fasta"), stream, false, true)
+		got, ok := parseRecords(res.stdout)
+		var have []string
+		for _, g := range got {
+			have = append(have, string(g.Bytes()))
+		}
+		o.Dist["cli-extract"]++
+		if res.code != 0 || (!ok && len(res.stdout) > 0) || strings.Join(have, "|") != strings.Join(want, "|") {
+			o.Violate("extract-writes-the-denoted-regions", line, fmt.Sprintf("exit %d, got %q want %q", res.code, have, want))
+		}
+	}
 }
